@@ -161,7 +161,7 @@ def execute(pool, op):
         before = [raw_slots(f) for f in pool]
     try:
         if kind == "new":
-            new = [canon.build_fs(op[1])]
+            new = [canon.build_fs(op[1], share=False)]   # aliasing is part of what C13 models: fresh Chunk objects
         elif kind == "fmtstr":
             args, kwargs = spell(op[2], op[3])
             new = [fmtstr(op[1], *args, **kwargs)]
@@ -329,7 +329,7 @@ def snapshot(pool):
         labs = [labels.setdefault(id(c), len(labels)) for c in chunks]
         ckm = [c.__dict__.get("color_str") for c in chunks]
         slots = raw_slots(f)
-        fresh = canon.build_fs(runs)
+        fresh = canon.build_fs(runs, share=False)
         ok = True
         if slots[0] is not None and slots[0] != str(fresh):
             ok = False
@@ -375,7 +375,7 @@ def run(inp):
         first = observe_all(f)
         again = observe_all(f)
         runs = [[c.s, list(canon.canon_atts(c.atts))] for c in f.__dict__["chunks"]]
-        fresh = observe_all(canon.build_fs(runs))
+        fresh = observe_all(canon.build_fs(runs, share=False))
         finals.append({"runs": runs, "obj": first, "again": first == again, "fresh": fresh})
     chars = set()
 
